@@ -542,6 +542,8 @@ struct Cli {
     task: Option<tokio::task::JoinHandle<()>>,
     coop: bool,
     faulted: bool,
+    half: bool,
+    junk: bool,
     sent: Vec<usize>,
     aidx: usize,
     h2body: HashMap<usize, mpsc::UnboundedSender<Bytes>>,
@@ -558,6 +560,8 @@ impl Cli {
             task: None,
             coop: true,
             faulted: false,
+            half: false,
+            junk: false,
             sent: vec![],
             aidx: 0,
             h2body: HashMap::new(),
@@ -762,6 +766,7 @@ struct Runner {
     mapped: usize,
     listener_lost: bool,
     make_failed: bool,
+    cancelled: usize,
     tls_client: Option<tokio_rustls::TlsConnector>,
     ev_cursor: usize,
     batch: Vec<Step>,
@@ -867,6 +872,7 @@ impl Runner {
             mapped: 0,
             listener_lost: false,
             make_failed: false,
+            cancelled: 0,
             ev_cursor: 0,
             batch: vec![],
             done_steps: vec![],
@@ -1120,6 +1126,7 @@ impl Runner {
                 self.clis[i].drop_conn();
                 self.clis[i].state = "cancelled".into();
                 self.clis[i].coop = false;
+                self.cancelled += 1;
                 if self.cfg.acc == "duplex" {
                     self.pending_q.retain(|(p, j)| *p || *j != i);
                 }
@@ -1137,6 +1144,7 @@ impl Runner {
                 }
                 let c = &mut self.clis[i];
                 c.coop = false;
+                c.junk = true;
                 let _ = c.cmd.as_ref().unwrap().send(Cmd::Write(b"\x16\x03\x00garbage\x00\xff\r\n\r\nnot http at all\r\n\r\n".to_vec()));
                 true
             }
@@ -1146,6 +1154,7 @@ impl Runner {
                 }
                 let c = &mut self.clis[i];
                 c.coop = false;
+                c.half = true;
                 let _ = c.cmd.as_ref().unwrap().send(Cmd::Shutdown);
                 true
             }
@@ -1174,12 +1183,15 @@ impl Runner {
                 true
             }
             "Chunk" => {
+                // enabled once the handler was allowed to answer (its gate is open "ok"): the chunk is
+                // released, the body hands it out as soon as the response exists
                 let key = format!("c{}r{}", i, s.k);
-                let (ret_ok, n) = {
+                let (gate_ok, n) = {
                     let g = self.sh.lock().unwrap();
-                    (g.handlers.get(&key).map(|h| h.ret == "ok").unwrap_or(false), g.gates.get(&key).map(|g| g.chunks).unwrap_or(0))
+                    let started = g.handlers.contains_key(&key);
+                    (started && g.gates.get(&key).map(|g| g.handler == Some(true)).unwrap_or(false), g.gates.get(&key).map(|g| g.chunks).unwrap_or(0))
                 };
-                if !ret_ok || n >= 2 {
+                if !gate_ok || n >= 2 {
                     return false;
                 }
                 self.open_gate(&key, None, Some(n + 1));
@@ -1231,6 +1243,14 @@ impl Runner {
                 }
             }
             "Probe" => {
+                // not while the harness's own make-service gate holds the accept loop
+                let make_pending = {
+                    let g = self.sh.lock().unwrap();
+                    g.make_gated && (1..=g.makes).any(|a| !g.make_dec.contains_key(&a))
+                };
+                if make_pending {
+                    return false;
+                }
                 self.probe().await;
                 true
             }
@@ -1284,6 +1304,9 @@ impl Runner {
         }
         let hstarted = self.sh.lock().unwrap().handlers.contains_key(&key);
         let aidx = self.probes[n].aidx;
+        if self.probes[n].state == "pending" {
+            self.cancelled += 1; // the probe gives up on a connect that was never accepted
+        }
         self.probes[n].drop_conn();
         self.probes[n].state = "dropped".into();
         // a probe whose connect was never accepted must not stay queued
@@ -1356,7 +1379,7 @@ impl Runner {
             "srv": self.srv_state, "srvAtSignal": self.srv_at_signal,
             "sigFired": g.sig_fired, "sigSeq": g.sig_seq,
             "acceptSeqs": g.accept_ok, "acceptErrs": g.accept_err, "makes": g.makes, "makePending": make_pending,
-            "listenerLost": self.listener_lost, "makeFailed": self.make_failed,
+            "listenerLost": self.listener_lost, "makeFailed": self.make_failed, "cancelled": self.cancelled,
             "spawned": g.spawned, "finished": g.finished,
             "events": new_events,
             "conns": conns,
@@ -1434,6 +1457,12 @@ impl Runner {
     }
 
     async fn step(&mut self, s: &Step) {
+        if s.a == "Probe" && !self.batch.is_empty() {
+            // probes only at settled points
+            self.settle().await;
+            let r = self.observe("step");
+            self.recs.push(r);
+        }
         let applied = self.apply(s).await;
         let mut s2 = s.clone();
         if !applied {
@@ -1441,10 +1470,10 @@ impl Runner {
         }
         self.done_steps.push(s.clone());
         self.batch.push(s2);
-        if s.a == "Probe" {
+        if s.a == "Probe" && applied {
             let r = self.observe("probe");
             self.recs.push(r);
-        } else if !s.ns {
+        } else if !s.ns || s.a == "Probe" {
             self.settle().await;
             let r = self.observe("step");
             self.recs.push(r);
@@ -1492,9 +1521,11 @@ impl Runner {
             if faults {
                 let fw = if c09 { 2 } else { 1 };
                 v.push((mk("Disconnect", i, 0, ""), fw));
-                if !c.is_h2() {
+                if !c.is_h2() && !c.half {
                     v.push((mk("Trunc", i, 0, ""), fw));
-                    v.push((mk("Garbage", i, 0, ""), fw));
+                    if !c.junk {
+                        v.push((mk("Garbage", i, 0, ""), fw));
+                    }
                 }
             }
             for k in 1..=self.cfg.nreq {
@@ -1511,7 +1542,8 @@ impl Runner {
                             v.push((s, if c09 { 3 } else { 1 }));
                         }
                     }
-                    if h.ret == "ok" && gate.map(|x| x.chunks).unwrap_or(0) < 2 {
+                    let _ = h;
+                    if gate.map(|x| x.handler == Some(true) && x.chunks < 2).unwrap_or(false) {
                         v.push((mk("Chunk", i, k, ""), 12));
                     }
                 }
@@ -1591,11 +1623,6 @@ async fn run_schedule(cfg: Cfg, tls: Option<&TlsMat>, paused: bool, scratch: &st
                 if s.a != "Probe" {
                     // a cancelled connect needs the connect queued and not yet accepted
                     s.ns = rng.gen_bool(if s.a == "Connect" && c09 { 0.5 } else { 0.2 });
-                } else if !r.batch.is_empty() {
-                    // probes only at settled points
-                    r.settle().await;
-                    let o = r.observe("step");
-                    r.recs.push(o);
                 }
                 if c09 && is_fault(&s.a, &s) {
                     force_probe = true;
